@@ -114,7 +114,9 @@ class HypercuboidPeriodicBoundaries(PeriodicBoundaries):
         float
             The position entry corrected for periodic boundaries.
         """
-        return position_entry % system_lengths[index]
+        position_entry %= system_lengths[index]
+        # For tiny negative floats, the modulo operation rounds up to the system length itself, which is not in [0, L).
+        return position_entry if position_entry != system_lengths[index] else 0.0
 
     @staticmethod
     def separation_vector(reference_position: Sequence[float],
